@@ -7,6 +7,7 @@ use crate::gen::{case_strategy, GenParams};
 use crate::guard::{run_guarded, Guarded};
 use crate::memfs::MemFs;
 use crate::runner::*;
+use proptest::prelude::*;
 use proptest::test_runner::{Config, RngSeed, TestCaseError, TestError, TestRunner};
 use raindb::fs::FileSystem;
 use raindb::verif::Counter;
@@ -633,7 +634,23 @@ pub fn worker(ctx: &WorkerCtx) -> WorkerResult {
         max_shrink_iters: 40,
         ..Config::default()
     });
-    let outcome = runner.run(&case_strategy(&workload_params()), |case| {
+    // a fifth of the workloads run with a large memtable and file size and small blocks: tables of many
+    // blocks spread over several 2 KiB filter ranges (faults while such a table is built or read)
+    let strategy = (case_strategy(&workload_params()), 0u8..10).prop_map(|(mut c, pick)| {
+        if pick < 2 {
+            c.cfg.memtable = 100_000;
+            c.cfg.file = 1024 * 1024;
+            c.cfg.block = if pick == 0 { 128 } else { 1024 };
+            for op in c.ops.iter_mut() {
+                if let Op::Reopen(cfg) = op {
+                    cfg.memtable = 100_000;
+                    cfg.file = 1024 * 1024;
+                }
+            }
+        }
+        c
+    });
+    let outcome = runner.run(&strategy, |case| {
         if *hung.borrow() {
             // every re-run of a hanging case costs the full quiet period: do not shrink hangs
             return Ok(());
